@@ -108,7 +108,8 @@ def run(ctx):
         # model outcomes
         mcases = {}
         for (t, u) in set((t, u) for _, t, u in jobs):
-            mcases[(t, u)] = wire.case("cli_verify_metadata", opt(loaded(docs[t])), opt(loaded(docs[u])))
+            # the model gets the two files as they are on disk: loading them (json.load's byte layer and parser) is part of the model
+            mcases[(t, u)] = wire.case("cli_verify_metadata_files", [] if docs[t] is None else [docs[t]], [] if docs[u] is None else [docs[u]])
         mdl = ctx.get_model()
         mout = {k: mdl.run1(w) for k, w in mcases.items()}
         nontriv = 0
